@@ -10,6 +10,7 @@ import (
 	"github.com/cube2222/octosql/execution/nodes"
 	"github.com/cube2222/octosql/octosql"
 
+	"verif/harness/internal/enum"
 	"verif/harness/internal/findings"
 	"verif/harness/internal/stream"
 )
@@ -102,4 +103,57 @@ type funcSrc struct {
 
 func (s *funcSrc) Run(ctx execution.ExecutionContext, produce execution.ProduceFn, metaSend execution.MetaSendFn) error {
 	return s.run(ctx, produce)
+}
+
+// c06Joins: node-level, schedule-exhaustive: one input of a join fails at every position of its script while the other
+// input is empty, holds one record, or has only sent a watermark; every interleaving of the two inputs (join controller,
+// hook H1), all four join kinds. Run must return the source's error whichever input finishes first.
+func c06Joins(r *findings.Run) {
+	scripts := stream.GenScripts(stream.ScriptOpts{Keys: []int{1}, Times: []int{1}, RecTimes: []int{0, 1}, MaxLen: 2, Watermarks: true})
+	type jjob struct {
+		k     joinKind
+		l, rr []stream.Ev
+	}
+	var jobs []jjob
+	for _, k := range joinKinds {
+		for _, ok := range scripts {
+			if len(ok) > 1 {
+				continue // the healthy input: empty or one event
+			}
+			for _, bad := range scripts {
+				for i := 0; i <= len(bad); i++ {
+					f := append(append([]stream.Ev{}, bad[:i]...), stream.Ev{Kind: stream.Fail})
+					jobs = append(jobs, jjob{k, f, ok}, jjob{k, ok, f})
+				}
+			}
+		}
+	}
+	r.Extra["join_failing_source_script_pairs"] = len(jobs)
+	enum.Parallel(len(jobs), func(i int) {
+		j := jobs[i]
+		stream.Schedules(len(j.l)+1, len(j.rr)+1, func(s []int) bool {
+			sched := append([]int{}, s...)
+			res := stream.RunJoin(buildJoin(j.k, 1), j.l, j.rr, sched, 0)
+			r.AddCounts(1, int64(len(sched)), 1)
+			r.Eval(1)
+			r.Sum("join_schedules", 1)
+			cs := c19Case{Kind: j.k.Name, Left: stream.Strs(j.l), Right: stream.Strs(j.rr), Schedule: stream.SchedStr(sched), Log: stream.LogStrs(res.Log)}
+			switch {
+			case res.Stuck:
+				r.Violation("C06/join-node/stuck/"+j.k.Name, fmt.Sprintf("%v: Run did not return", cs), cs)
+			case res.Panic != nil:
+				r.Violation("C06/join-node/panic/"+j.k.Name, fmt.Sprintf("%v: panic %v", cs, res.Panic), cs)
+			case res.Err == nil:
+				empty := ""
+				if len(j.l) == 0 || len(j.rr) == 0 {
+					empty = "/other-input-empty"
+				}
+				r.Violation("C06/join-node/error-swallowed/"+j.k.Name+empty, fmt.Sprintf("%s join, left %v right %v schedule %s: an input failed but Run returned no error", j.k.Name, cs.Left, cs.Right, cs.Schedule), cs)
+			default:
+				r.Nontrivial(fmt.Sprint(cs.Kind, cs.Left, cs.Right, cs.Schedule))
+			}
+			r.Outcome(fmt.Sprintf("join-node err=%v", res.Err != nil))
+			return true
+		})
+	})
 }
